@@ -217,6 +217,32 @@ func (acc *Accumulator) Remove(sk *gabikeys.PrivateKey, e *big.Int, parent *Even
 
 // UnmarshalVerify verifies the signature and unmarshals the accumulator
 // (c.f. Accumulator.Sign()).
+// signedAccumulatorWire is the serialised form of a SignedAccumulator.
+type signedAccumulatorWire struct {
+	Data      signed.Message `json:"data"`
+	PKCounter uint           `json:"pk"`
+}
+
+// UnmarshalJSON reads the signed bytes and forgets what the receiver decoded from earlier ones.
+func (s *SignedAccumulator) UnmarshalJSON(bts []byte) error {
+	var w signedAccumulatorWire
+	if err := json.Unmarshal(bts, &w); err != nil {
+		return err
+	}
+	s.Data, s.PKCounter, s.Accumulator = w.Data, w.PKCounter, nil
+	return nil
+}
+
+// UnmarshalCBOR reads the signed bytes and forgets what the receiver decoded from earlier ones.
+func (s *SignedAccumulator) UnmarshalCBOR(bts []byte) error {
+	var w signedAccumulatorWire
+	if err := cbor.Unmarshal(bts, &w); err != nil {
+		return err
+	}
+	s.Data, s.PKCounter, s.Accumulator = w.Data, w.PKCounter, nil
+	return nil
+}
+
 func (s *SignedAccumulator) UnmarshalVerify(pk *gabikeys.PublicKey) (*Accumulator, error) {
 	if s.Accumulator != nil {
 		return s.Accumulator, nil
